@@ -438,6 +438,7 @@ fn instances(thorough: bool) -> Vec<Case> {
 pub fn main() {
     let args = Args::parse();
     engine::install_hook();
+    engine::maybe_replay_many::<Case>(PROP, &args, |c, _| run(c).map(|_| ()));
     let started = std::time::Instant::now();
     if let Some(p) = &args.replay {
         let case: Case = engine::load_replay(p);
